@@ -3,6 +3,8 @@ package mhprimary
 import (
 	"encoding/json"
 	"os"
+
+	"github.com/ipld/go-storethehash/store/verifhook"
 )
 
 // Header contains information about the primary. This is actually stored in a
@@ -50,5 +52,6 @@ func writeHeader(headerPath string, header Header) error {
 	if err = os.WriteFile(tmpPath, data, 0o666); err != nil {
 		return err
 	}
+	verifhook.At("primary.header.tmp_written")
 	return os.Rename(tmpPath, headerPath)
 }
